@@ -213,8 +213,13 @@ def normalise(case, r):
     k = case["kindcase"]
     if k == "watch":
         if "results" not in r:
-            return {"results": [{"triggered": False, "alive": False} for _ in case["m"]["ops"]], "error": r.get("error", "?")}
-        return {"results": r["results"]}
+            return {"results": [{"triggered": False, "alive": False, "cbs": []} for _ in case["m"]["ops"]], "error": r.get("error", "?")}
+        # the extension set of the reporting watcher arrives as Rust's Debug text: None | Some({".txt", ".o"})
+        out = []
+        for x in r["results"]:
+            cbs = [{"exts": sorted(re.findall(r'"((?:[^"\\]|\\.)*)"', cb.get("exts", ""))), "paths": cb["paths"]} for cb in x.get("cbs", [])]
+            out.append({"triggered": x["triggered"], "alive": x["alive"], "cbs": cbs})
+        return {"results": out}
     rr = r.get("r") or {}
     ok = "listed" in rr
     if k == "list":
@@ -288,21 +293,43 @@ def run_shard(args):
 
 
 def mc(tier):
+    out = {}
     spec_h = tree_hash([os.path.join(SPEC, f) for f in ("Resources.tla", "ResourceRules.tla", "Resources.cfg")])
     cp = os.path.join(RESULTS, "mc_resources_%s.json" % spec_h)
     if os.path.exists(cp):
-        return {"resources": json.load(open(cp))}
-    t0 = time.time()
-    rc, o = tlc("Resources.tla", "Resources.cfg", workers=min(8, NCPU), timeout=1500, metaname="mc_resources")
-    st = tlc_stats(o)
-    st.update({"name": "resources", "constants": {}, "wall_s": round(time.time() - t0, 1),
-               "invariants": ["Monotone", "NoWorkDir", "CleanWithin", "CleanIsDenoted", "NeverThroughLink", "Idem", "MissingContributesNothing", "SelfOK"]})
-    if st["ok"]:
-        json.dump(st, open(cp, "w"))
+        out["resources"] = json.load(open(cp))
     else:
-        st["tail"] = "\n".join(l for l in o.splitlines() if not TLC_NOISE.match(l))[-2500:]
-    log("TLC resources: %s distinct=%d %.0fs" % ("ok" if st["ok"] else "FAILED", st["distinct"], st["wall_s"]))
-    return {"resources": st}
+        t0 = time.time()
+        rc, o = tlc("Resources.tla", "Resources.cfg", workers=min(8, NCPU), timeout=1500, metaname="mc_resources")
+        st = tlc_stats(o)
+        st.update({"name": "resources", "constants": {}, "wall_s": round(time.time() - t0, 1),
+                   "invariants": ["Monotone", "NoWorkDir", "CleanWithin", "CleanIsDenoted", "NeverThroughLink", "Idem", "MissingContributesNothing", "SelfOK"]})
+        if st["ok"]:
+            json.dump(st, open(cp, "w"))
+        else:
+            st["tail"] = "\n".join(l for l in o.splitlines() if not TLC_NOISE.match(l))[-2500:]
+        log("TLC resources: %s distinct=%d %.0fs" % ("ok" if st["ok"] else "FAILED", st["distinct"], st["wall_s"]))
+        out["resources"] = st
+    # the watcher's algorithm (grouping by extension list, registration, callback filter, capacity-1 notice) against the rule
+    consts = {"MaxRes": 2, "MaxEvents": 2 if tier != "thorough" else 3, "DedupAcrossGroups": False}
+    invs = ["NoViolation", "GroupingFaithful", "NothingExtra", "NoticeNotLost", "NoSpuriousNotice"]
+    wh = tree_hash([os.path.join(SPEC, f) for f in ("Watcher.tla", "ResourceRules.tla")])
+    cp = os.path.join(RESULTS, "mc_watcher_%s_%d.json" % (wh, consts["MaxEvents"]))
+    if os.path.exists(cp):
+        out["watcher"] = json.load(open(cp))
+    else:
+        t0 = time.time()
+        rc, o = tlc("Watcher.tla", write_cfg("Watcher_" + tier, consts, invs, [], "Spec", False), workers=min(8, NCPU), timeout=1500,
+                    metaname="mc_watcher")
+        st = tlc_stats(o)
+        st.update({"name": "watcher", "constants": consts, "wall_s": round(time.time() - t0, 1), "invariants": invs})
+        if st["ok"]:
+            json.dump(st, open(cp, "w"))
+        else:
+            st["tail"] = "\n".join(l for l in o.splitlines() if not TLC_NOISE.match(l))[-2500:]
+        log("TLC watcher: %s distinct=%d %.0fs" % ("ok" if st["ok"] else "FAILED", st["distinct"], st["wall_s"]))
+        out["watcher"] = st
+    return out
 
 
 KIND_OF = {"C12": "clean", "C15": "list", "C16": "watch"}
@@ -381,9 +408,14 @@ def replay(pid, path):
 
 def describe(pid, res):
     st = res["mc"]["resources"]
-    cov = {"states": st["distinct"], "transitions": st["generated"], "traces_validated_against_impl": res["traces_validated"],
+    # C16 (and the watching clause of C15) also rest on the watcher's design specification
+    used = [st] + ([res["mc"]["watcher"]] if pid in ("C16", "C15") and "watcher" in res["mc"] else [])
+    cov = {"states": sum(x["distinct"] for x in used), "transitions": sum(x["generated"] for x in used),
+           "traces_validated_against_impl": res["traces_validated"],
            "samples": [s for s in res["samples"] if s["kind"] == KIND_OF[pid]][:1] + [{"tlc_configuration": "Resources.cfg",
-                       "lemmas": st["invariants"], "distinct_states": st["distinct"]}],
+                       "lemmas": st["invariants"], "distinct_states": st["distinct"]}] +
+                      [{"tlc_configuration": "Watcher.tla " + json.dumps(x["constants"]), "invariants": x["invariants"],
+                        "distinct_states": x["distinct"]} for x in used[1:]],
            "evaluations": res["by_kind"].get(KIND_OF[pid], 0), "distinct_nontrivial": res["nontrivial"].get(pid, 0),
            "rule": "one evaluation = one generated tree (nested directories, .zinoma at several depths, multi-dot / dot / tilde / swap / "
                    "non-UTF-8 names, links to files and directories inside and outside the project, dangling links) x declaration "
